@@ -8,8 +8,16 @@ PROP = {'assumptions': ['HashMap<Arc<str>, _> / HashMap<Type, _> with the Entry 
                  'Arc::ptr_eq identity is modelled as a fresh id per build() call; clone() copies the id',
                  'function and list definitions are opaque to the registry (only the name / type is kept)',
                  'the parser around an identifier is modelled only for bare `name` and `name()` texts '
-                 '(no index, no operator, zero-parameter Bool functions)'],
- 'modules': ['WfModel.Props.C16'],
+                 '(no index, no operator, zero-parameter Bool functions)',
+                 'Props/C16Ident.lean is stated over the MAIN parser model (Model/Parse.lean: lexUnary = '
+                 'LogicalExpr::lex_unary_op, used by simpleL = lex_simple_expr and argL = FunctionCallArgExpr::lex_with): '
+                 'valid names are dotted identifiers seg(.seg)* (nameOk, decidable); the whole-filter theorems need '
+                 'the name to differ from the bare word `not` (which always is the operator; sharp) and, for a bare '
+                 'Bool field, from any/all; the comparison form covers the six ordering operators with int / bytes / '
+                 'ip literals (Lit) and, at whole-filter level, asks that the text has no trailing white space '
+                 '(htrim, decidable); that model is tied to the engine by the streams of C01-C05/C07/C13/C17 whose '
+                 'generated scheme now has the fields notes, not_b, es and filters with `not` glued to its operand'],
+ 'modules': ['WfModel.Props.C16', 'WfModel.Props.C16Ident'],
  'rule': 'cases = whole registration histories executed on the real SchemeBuilder, each followed by 33 lookup '
          'texts (pool names x, x.y, x.y.z, X, xy, x_y, their prefixes, extensions, case variants, dangling '
          'dots, stop characters, surrounding spaces) through get_field / get_function / parse / parse_value '
@@ -32,8 +40,20 @@ TEXT = {'design_ref': 'DESIGN.md section 3, C16',
           'field_reports_registration (name/type/optionality/index survive all later calls), lookup_exact, '
           'field_function_disjoint, identifier_maximal (the identifier token is exactly a maximal dotted run; '
           'dangling/double dot = lex error), resolve_complete_name, scheme_eq_iff_same_build. Tied to the '
-          'code by a differential run of whole histories on the real SchemeBuilder/Scheme/parser.',
+          'code by a differential run of whole histories on the real SchemeBuilder/Scheme/parser. '
+          'Props/C16Ident.lean (main parser model, after the fix of F13): lex_unary_op_declines_iff / '
+          'lex_unary_op_takes_iff (the exact rule of LogicalExpr::lex_unary_op: `!` always, the word `not` unless '
+          'name characters are glued to it AND Identifier::lex_with succeeds at the `n`), registered_means_maximal_run, '
+          'unary_declines_registered_name (every registered valid name other than `not` is declined before every '
+          'identifier-ending continuation), bare_not_is_operator, registered_bool_field_resolves (for every '
+          'registered Bool field n with nameOk n, n != not/any/all, FilterParser::parse of the text n is the bare-field '
+          'node of exactly field n - also when n begins with `not`), registered_field_cmp_resolves(_level) (the same '
+          'for `n ws op ws literal`, any ordering operator / alias / layout / literal form), arg_registered_not_name '
+          '(a function argument starting with such a name is lexed as that field), with examples on a scheme notes, '
+          'es, not_b, _b, not.x, len().',
  'note': 'Trusted: Lean kernel; axioms propext/Classical.choice/Quot.sound; harness. Modelled not verified: '
          'HashMap entry API, Arc::ptr_eq, str::trim. The parser is modelled only as far as bare `name` / '
-         '`name()` texts need (identifier scanner + one lookup + empty call parentheses).',
+         '`name()` texts need (identifier scanner + one lookup + empty call parentheses); the unary-operator rule '
+         'of lex_unary_op is modelled there as unaryPrefix and in the main parser model as lexUnary '
+         '(Props/C16Ident.lean states the resolution theorems over the latter).',
  'technique': 'Lean 4 proof over executable model + differential correspondence with the real engine'}
